@@ -5,6 +5,8 @@ check there (SPYNE_REPO); report any exit code other than 0.
 usage: benign_matrix.py <root> [ID ...]"""
 import json, os, subprocess, sys, glob, shutil
 from concurrent.futures import ThreadPoolExecutor
+import threading
+GIT_LOCK = threading.Lock()
 VERIF = os.path.dirname(os.path.dirname(os.path.abspath(__file__)))
 root = sys.argv[1]
 only = sys.argv[2:]
@@ -23,8 +25,9 @@ def run(seed):
         prop, n = n.split('-', 1)
     wt = '/tmp/bm/%s-%s' % (prop, n)
     shutil.rmtree(wt, ignore_errors=True)
-    subprocess.run(['git', '-C', '/repo', 'worktree', 'prune'], capture_output=True)
-    r = subprocess.run(['git', '-C', '/repo', 'worktree', 'add', '--detach', wt, head], capture_output=True)
+    with GIT_LOCK:
+        subprocess.run(['git', '-C', '/repo', 'worktree', 'prune'], capture_output=True)
+        r = subprocess.run(['git', '-C', '/repo', 'worktree', 'add', '--detach', wt, head], capture_output=True)
     if r.returncode:
         return prop, n, None, r.stderr.decode()[-200:]
     try:
@@ -33,18 +36,27 @@ def run(seed):
             return prop, n, None, 'apply failed'
         bad = {}
         env = dict(os.environ, SPYNE_REPO=wt)
-        for i in ids:
-            p = subprocess.run(['/venv/bin/python', VERIF + '/sa/check.py', i, '--tier', 'quick', '--no-mutants', '--no-evidence'],
-                               capture_output=True, env=env)
-            if p.returncode != 0:
-                out = p.stdout.decode()
-                bad['%s rc=%d' % (i, p.returncode)] = [l[:230] for l in out.splitlines()
-                                                      if l.startswith(('FINDING', 'ANALYSIS-ERROR'))][:4]
+        p = subprocess.run(['/venv/bin/python', VERIF + '/sa/check.py', ','.join(ids), '--tier', 'quick', '--no-mutants', '--no-evidence'],
+                           capture_output=True, env=env)
+        block = []
+        seen_ids = 0
+        for l in p.stdout.decode().splitlines():
+            if l.startswith('== C') and ' exit=' in l:
+                i, rc = l[3:].split(' exit=')
+                seen_ids += 1
+                if rc != '0':
+                    bad['%s rc=%s' % (i, rc)] = [x[:230] for x in block if x.startswith(('FINDING', 'ANALYSIS-ERROR'))][:4]
+                block = []
+            else:
+                block.append(l)
+        if seen_ids != len(ids):
+            bad['driver'] = ['only %d of %d checks reported: %s' % (seen_ids, len(ids), p.stderr.decode()[-300:])]
         return prop, n, bad, ''
     finally:
-        subprocess.run(['git', '-C', '/repo', 'worktree', 'remove', '--force', wt], capture_output=True)
+        with GIT_LOCK:
+            subprocess.run(['git', '-C', '/repo', 'worktree', 'remove', '--force', wt], capture_output=True)
 
-with ThreadPoolExecutor(6) as ex:
+with ThreadPoolExecutor(14) as ex:
     results = list(ex.map(run, seeds))
 nbad = 0
 for prop, n, bad, err in results:
